@@ -898,3 +898,161 @@ func lemma_C03_userControlRoundtrip(p *UserControl, rest []byte) bool {
 //@ safe (*Protocol).ReadMessage C07
 //@ safe (*Protocol).WriteMessage C01
 //@ safe (*Protocol).onMessageArrivated C07
+
+// ---------- C03: AMF0 command packets: bounded stand-ins ----------
+// Packets of every command kind with fixed-shape AMF0 trees and ARBITRARY scalar contents, key bytes and stream names;
+// callees (including the amf0 package) are inlined and loops unrolled: bounded, not counted as proofs. Each lemma:
+// marshals to exactly Size() bytes in the order RTMP 7.2.1 gives, unmarshals into a fresh packet of the same kind to
+// equal field values, and re-marshals to the same bytes.
+
+func prim_havoc(b []byte) {} // the buffer's contents become arbitrary (engine primitive)
+
+func spec_anyString(n int) string {
+	b := make([]byte, n)
+	prim_havoc(b)
+	return string(b)
+}
+
+func spec_numberIs(a amf0.Amf0, bits uint64) bool {
+	n, ok := a.(*amf0.Number)
+	return ok && n != nil && math.Float64bits(float64(*n)) == bits
+}
+
+// connect: "connect", transaction 1, command object {k: Number}
+//@ bounded lemma_C03_connectRoundtrip 4
+//@ lemma C03.connect.roundtrip.bounded
+func lemma_C03_connectRoundtrip(bits uint64) bool {
+	k := spec_anyString(3)
+	p := NewConnectAppPacket()
+	p.CommandObject.Set(k, amf0.NewNumber(math.Float64frombits(bits)))
+	b, err := p.MarshalBinary()
+	if err != nil || len(b) != p.Size() || len(b) != (3+7)+9+(1+(2+3+9)+3) {
+		return false
+	}
+	if b[0] != 2 || b[1] != 0 || b[2] != 7 || string(b[3:10]) != "connect" || b[10] != 0 || spec_be64(b[11:]) != 0x3ff0000000000000 || b[19] != 3 {
+		return false
+	}
+	q := NewConnectAppPacket()
+	if err = q.UnmarshalBinary(b); err != nil {
+		return false
+	}
+	if q.Size() != len(b) || q.Args != nil || !spec_numberIs(q.CommandObject.Get(k), bits) {
+		return false
+	}
+	b2, err := q.MarshalBinary()
+	return err == nil && prim_eqbytes(b2, b)
+}
+
+// connect response: "_result", any transaction id, command object {}, args object {k: Number}
+//@ bounded lemma_C03_connectResRoundtrip 4
+//@ lemma C03.connect-res.roundtrip.bounded
+func lemma_C03_connectResRoundtrip(tid, bits uint64) bool {
+	k := spec_anyString(2)
+	p := NewConnectAppResPacket(amf0.Number(math.Float64frombits(tid)))
+	p.Args = amf0.NewObject()
+	p.Args.Set(k, amf0.NewNumber(math.Float64frombits(bits)))
+	b, err := p.MarshalBinary()
+	if err != nil || len(b) != p.Size() || len(b) != (3+7)+9+(1+3)+(1+(2+2+9)+3) {
+		return false
+	}
+	q := NewConnectAppResPacket(0)
+	if err = q.UnmarshalBinary(b); err != nil {
+		return false
+	}
+	if q.Size() != len(b) || math.Float64bits(float64(q.TransactionID)) != tid || q.Args == nil || !spec_numberIs(q.Args.Get(k), bits) {
+		return false
+	}
+	b2, err := q.MarshalBinary()
+	return err == nil && prim_eqbytes(b2, b)
+}
+
+// createStream and its response: null command object, stream id
+//@ bounded lemma_C03_createStreamRoundtrip 4
+//@ lemma C03.create-stream.roundtrip.bounded
+func lemma_C03_createStreamRoundtrip(tid, sid uint64) bool {
+	p := NewCreateStreamPacket()
+	p.TransactionID = amf0.Number(math.Float64frombits(tid))
+	b, err := p.MarshalBinary()
+	if err != nil || len(b) != p.Size() || len(b) != (3+12)+9+1 || b[len(b)-1] != 5 {
+		return false
+	}
+	q := NewCreateStreamPacket()
+	if err = q.UnmarshalBinary(b); err != nil || q.Size() != len(b) || math.Float64bits(float64(q.TransactionID)) != tid || string(q.CommandName) != "createStream" {
+		return false
+	}
+	r := NewCreateStreamResPacket(amf0.Number(math.Float64frombits(tid)))
+	r.StreamID = amf0.Number(math.Float64frombits(sid))
+	rb, err := r.MarshalBinary()
+	if err != nil || len(rb) != r.Size() || len(rb) != (3+7)+9+1+9 {
+		return false
+	}
+	s := NewCreateStreamResPacket(0)
+	if err = s.UnmarshalBinary(rb); err != nil {
+		return false
+	}
+	rb2, err := s.MarshalBinary()
+	return err == nil && s.Size() == len(rb) && math.Float64bits(float64(s.StreamID)) == sid && math.Float64bits(float64(s.TransactionID)) == tid && prim_eqbytes(rb2, rb)
+}
+
+// publish and play: null command object, stream name (and type)
+//@ bounded lemma_C03_publishPlayRoundtrip 4
+//@ lemma C03.publish-play.roundtrip.bounded
+func lemma_C03_publishPlayRoundtrip(tid uint64) bool {
+	name := spec_anyString(5)
+	p := NewPublishPacket()
+	p.TransactionID = amf0.Number(math.Float64frombits(tid))
+	p.StreamName = amf0.String(name)
+	b, err := p.MarshalBinary()
+	if err != nil || len(b) != p.Size() || len(b) != (3+7)+9+1+(3+5)+(3+4) {
+		return false
+	}
+	q := NewPublishPacket()
+	q.StreamType = ""
+	if err = q.UnmarshalBinary(b); err != nil || q.Size() != len(b) || string(q.StreamName) != name || string(q.StreamType) != "live" {
+		return false
+	}
+	pl := NewPlayPacket()
+	pl.TransactionID = amf0.Number(math.Float64frombits(tid))
+	pl.StreamName = amf0.String(name)
+	pb, err := pl.MarshalBinary()
+	if err != nil || len(pb) != pl.Size() || len(pb) != (3+4)+9+1+(3+5) {
+		return false
+	}
+	ql := NewPlayPacket()
+	if err = ql.UnmarshalBinary(pb); err != nil {
+		return false
+	}
+	pb2, err := ql.MarshalBinary()
+	return err == nil && ql.Size() == len(pb) && string(ql.StreamName) == name && math.Float64bits(float64(ql.TransactionID)) == tid && prim_eqbytes(pb2, pb)
+}
+
+// generic call / closeStream: command name, null command object, optional argument
+//@ bounded lemma_C03_callRoundtrip 4
+//@ lemma C03.call.roundtrip.bounded
+func lemma_C03_callRoundtrip(tid, bits uint64) bool {
+	p := NewCloseStreamPacket()
+	p.TransactionID = amf0.Number(math.Float64frombits(tid))
+	b, err := p.MarshalBinary()
+	if err != nil || len(b) != p.Size() || len(b) != (3+11)+9+1 {
+		return false
+	}
+	q := NewCallPacket()
+	if err = q.UnmarshalBinary(b); err != nil || q.Size() != len(b) || string(q.CommandName) != "closeStream" || q.Args != nil {
+		return false
+	}
+	p.Args = amf0.NewNumber(math.Float64frombits(bits))
+	b, err = p.MarshalBinary()
+	if err != nil || len(b) != p.Size() || len(b) != (3+11)+9+1+9 {
+		return false
+	}
+	q = NewCallPacket()
+	if err = q.UnmarshalBinary(b); err != nil {
+		return false
+	}
+	b2, err := q.MarshalBinary()
+	return err == nil && q.Size() == len(b) && spec_numberIs(q.Args, bits) && prim_eqbytes(b2, b)
+}
+
+func spec_be64(p []byte) uint64 {
+	return uint64(p[0])<<56 | uint64(p[1])<<48 | uint64(p[2])<<40 | uint64(p[3])<<32 | uint64(p[4])<<24 | uint64(p[5])<<16 | uint64(p[6])<<8 | uint64(p[7])
+}
